@@ -17,3 +17,14 @@ package tilecover
 //@ func MergeUp(set, min)
 //@   mode bv
 //@   loop 2: exit len(set) < 4 || z <= min
+
+// ---------------------------------------------------------------- the line walker
+// memory-safe for every line, zoom and ring trace (incl. degenerate lines whose trace stays empty: the
+// final ring[0] panicked — fixed); and prevX/prevY are either the initial sentinel (-1,-1) or the
+// coordinates of a tile that is already in the set, so "same tile as before, nothing to add" is only
+// ever decided against a tile that was added
+//@ func line(set, line, zoom, ring)
+//@   floats abstract
+//@   requires set != nil
+//@   loop 1: invariant (same(prevX, -1.0) && same(prevY, -1.0)) || has(set, mk(maptile.Tile, uint32(prevX), uint32(prevY), zoom))
+//@   loop 2: invariant (same(prevX, -1.0) && same(prevY, -1.0)) || has(set, mk(maptile.Tile, uint32(prevX), uint32(prevY), zoom))
